@@ -26,6 +26,7 @@
 -/
 import HealSparse.Lemmas.WFWorld
 import HealSparse.Lemmas.SubMap
+import HealSparse.Props.C10
 namespace HS
 
 open WFFiles
@@ -523,5 +524,340 @@ def sameObj (a b : MapObj) : Bool :=
   decide (a.cache = b.cache) && decide (a.view = b.view)
 
 end RoundTrip
+
+/-! ### `update_values_pix` on interchangeable maps (API-level continuation)
+
+`apiUpdate` = a validation chain that never looks at the arrays (`updA`), followed by the view
+test, the update proper and the float exactness test (`updB`), which depend on the arrays only
+through the dense view.  Hence two map objects with the same configuration / kind / sentinel
+and content-equal states (`C10.Same`) cannot be told apart by any call, errors included. -/
+
+/-- the validation chain of `update_values_pix` up to and including the pixel range check —
+    every test that does not look at the arrays — in continuation-passing form.
+    `k none` = the empty-pixel early return. -/
+def updAK {β : Type} (m : MapObj) (op : String) (pix : List Nat) (vals : Option (List Val))
+    (single : Bool) (rawUnique : Option Bool)
+    (k : Option (List Val × Bool × Bool) → Except Err β) : Except Err β := do
+  let m := { m with cache := none }
+  let (vals, single, noAppend) ← match vals with
+    | none =>
+        if op != "replace" then throw .value
+        pure ([clearValue m], true, true)
+    | some vs => pure (vs, single || vs.length == 1, false)
+  if op != "replace" then
+    if m.kind.isBool then
+      if op != "or" && op != "and" then throw .notImpl
+    else if op == "or" || op == "and" then
+      if !(m.kind.isIntegerMap && m.sent.isZero) then throw .value
+    else if op == "add" then
+      match m.kind with
+      | .recd _ _ => throw .value
+      | _ => pure ()
+    else throw .value
+  if pix.isEmpty then return (← k none)
+  if !(vals.all (valMatchesKind m.kind)) then throw .value
+  if op == "replace" then
+    match rawUnique with
+    | some ok => if !ok then throw .value
+    | none => if pix.eraseDups.length < pix.length then throw .value
+  if !single && vals.length != pix.length then throw .value
+  if pix.any (· ≥ m.npix) then throw .index
+  k (some (vals, single, noAppend))
+
+/-- the rest: the view test, the update proper, the float exactness test -/
+def updB (m : MapObj) (op : String) (pix : List Nat) (r : Option (List Val × Bool × Bool)) :
+    Except Err MapObj :=
+  match r with
+  | none => .ok { m with cache := none }
+  | some (vals, single, noAppend) =>
+    if m.view.isSome && pix.any (fun p => m.abs p == m.sent) then .error .runtime
+    else
+      let pv : List (Nat × Val) :=
+        if single then pix.map (·, vals.headD (.num 0 0)) else pix.zip vals
+      let st' := updatePix m.c m.vc m.st (cellOp m op).1 (cellOp m op).2 pv noAppend
+      if op == "add" && !floatCellsFit m.kind st'.sp then .error .inexact
+      else .ok { m with cache := none, st := st' }
+
+theorem apiUpdate_eq_cps (m : MapObj) (op : String) (pix : List Nat) (vals : Option (List Val))
+    (single : Bool) (rawUnique : Option Bool) :
+    apiUpdate m op pix vals single rawUnique = updAK m op pix vals single rawUnique (updB m op pix) := by
+  rfl
+
+
+/-- the validation chain by itself: `.ok none` = empty-pixel early return,
+    `.ok (some (vals, single, noAppend))` = go on with the normalised values -/
+def updA (m : MapObj) (op : String) (pix : List Nat) (vals : Option (List Val))
+    (single : Bool) (rawUnique : Option Bool) : Except Err (Option (List Val × Bool × Bool)) :=
+  updAK m op pix vals single rawUnique .ok
+
+/-- `x` is `y` followed by `k` (kept opaque for the structural walk below) -/
+def UpdPres {β : Type} (k : Option (List Val × Bool × Bool) → Except Err β)
+    (x : Except Err β) (y : Except Err (Option (List Val × Bool × Bool))) : Prop := x = y.bind k
+
+theorem UpdPres.ite {β : Type} {k : Option (List Val × Bool × Bool) → Except Err β} {c : Prop}
+    [Decidable c] {A B : Except Err β} {A' B' : Except Err (Option (List Val × Bool × Bool))}
+    (hA : c → UpdPres k A A') (hB : ¬ c → UpdPres k B B') :
+    UpdPres k (if c then A else B) (if c then A' else B') := by
+  by_cases h : c
+  · rw [if_pos h, if_pos h]; exact hA h
+  · rw [if_neg h, if_neg h]; exact hB h
+
+theorem UpdPres.err {β : Type} {k : Option (List Val × Bool × Bool) → Except Err β} (e : Err) :
+    UpdPres k (.error e) (.error e) := rfl
+
+theorem UpdPres.ret {β : Type} {k : Option (List Val × Bool × Bool) → Except Err β}
+    (r : Option (List Val × Bool × Bool)) : UpdPres k (k r) (.ok r) := rfl
+
+theorem updAK_pres {β : Type} (m : MapObj) (op : String) (pix : List Nat) (vals : Option (List Val))
+    (single : Bool) (rawUnique : Option Bool) (k : Option (List Val × Bool × Bool) → Except Err β) :
+    UpdPres k (updAK m op pix vals single rawUnique k) (updAK m op pix vals single rawUnique .ok) := by
+  cases m with
+  | mk co so kind sent st cache view =>
+  cases vals <;> cases rawUnique <;> cases kind <;>
+  · unfold updAK
+    simp only [bind, Except.bind, pure, Except.pure, throw, throwThe, MonadExceptOf.throw]
+    repeat' first
+      | exact UpdPres.err _
+      | exact UpdPres.ret _
+      | (apply UpdPres.ite <;> intro _)
+
+theorem updAK_eq_bind {β : Type} (m : MapObj) (op : String) (pix : List Nat) (vals : Option (List Val))
+    (single : Bool) (rawUnique : Option Bool) (k : Option (List Val × Bool × Bool) → Except Err β) :
+    updAK m op pix vals single rawUnique k = (updA m op pix vals single rawUnique).bind k :=
+  updAK_pres m op pix vals single rawUnique k
+
+/-- **`update_values_pix` = validation chain, then the array part** -/
+theorem apiUpdate_eq (m : MapObj) (op : String) (pix : List Nat) (vals : Option (List Val))
+    (single : Bool) (rawUnique : Option Bool) :
+    apiUpdate m op pix vals single rawUnique =
+      (updA m op pix vals single rawUnique).bind (updB m op pix) := by
+  rw [apiUpdate_eq_cps, updAK_eq_bind]
+
+/-- the validation chain does not look at the arrays (nor at the cache) -/
+theorem updA_st (m : MapObj) (s : State Val) (x : Option Nat) (op : String) (pix : List Nat)
+    (vals : Option (List Val)) (single : Bool) (rawUnique : Option Bool) :
+    updA { m with st := s, cache := x } op pix vals single rawUnique
+      = updA m op pix vals single rawUnique := rfl
+
+open WFApi in
+/-- past the validation chain every pixel is in range -/
+theorem updA_ok_lt {m : MapObj} {op : String} {pix : List Nat} {vals : Option (List Val)}
+    {single : Bool} {rawUnique : Option Bool} {r : List Val × Bool × Bool}
+    (h : updA m op pix vals single rawUnique = .ok (some r)) : ∀ p ∈ pix, p < m.npix := by
+  unfold updA updAK at h
+  simp only [bind, Except.bind, pure, Except.pure, throw, throwThe, MonadExceptOf.throw] at h
+  repeat' xpeel h
+  all_goals first
+    | (cases h; done)
+    | exact lt_of_not_any_ge ‹_›
+
+
+section
+variable {V : Type} [DecidableEq V] {c : Cfg} {vc : VCfg V} {s : State V}
+
+/-- a test holds on every storage cell iff it holds on the blank cell and on the value of every
+    pixel: the storage of a well-laid-out map holds nothing else -/
+theorem Inv.sp_all_iff (h : Inv c vc s) (P : V → Bool) :
+    s.sp.all P = true ↔ (P vc.sentinel = true ∧ ∀ p, p < c.npix → P (abs c vc s p) = true) := by
+  rw [Array.all_eq_true]
+  constructor
+  · intro hall
+    have h0 : P vc.sentinel = true := by
+      have hs := h.2.2.1 0 c.nfine_pos
+      have hlt : 0 < s.sp.size := h.sp_pos
+      have := hall 0 hlt
+      rw [Array.getElem?_eq_getElem hlt] at hs
+      rw [Option.some.inj hs] at this
+      exact this
+    refine ⟨h0, fun p _ => ?_⟩
+    unfold abs rd
+    cases hg : s.sp[(lookup c s p).toNat]? with
+    | none => exact h0
+    | some v =>
+      obtain ⟨hlt, rfl⟩ := Array.getElem?_eq_some_iff.1 hg
+      exact hall _ hlt
+  · rintro ⟨h0, hpx⟩ i hi
+    by_cases h1 : i < c.nfine
+    · have hs := h.2.2.1 i h1
+      rw [Array.getElem?_eq_getElem hi] at hs
+      rw [Option.some.inj hs]; exact h0
+    · obtain ⟨hp, _, _, ha, _⟩ := h.pixOfCell_spec (Nat.le_of_not_lt h1) hi
+      have := hpx _ hp
+      rw [ha, rd_eq_getElem _ _ _ hi] at this
+      exact this
+
+end
+
+/-- the float exactness test of `update_values_pix` does not depend on the representation -/
+theorem floatCellsFit_same {c : Cfg} {vc : VCfg Val} {s₁ s₂ : State Val} (k : Kind)
+    (h : C10.Same c vc s₁ s₂) : floatCellsFit k s₁.sp = floatCellsFit k s₂.sp := by
+  obtain ⟨h1, h2, hab, _⟩ := h
+  unfold floatCellsFit
+  split
+  · rw [Bool.eq_iff_iff, h1.sp_all_iff, h2.sp_all_iff]
+    constructor
+    · rintro ⟨a, b⟩; exact ⟨a, fun p hp => by rw [← hab p hp]; exact b p hp⟩
+    · rintro ⟨a, b⟩; exact ⟨a, fun p hp => by rw [hab p hp]; exact b p hp⟩
+  · rfl
+
+/-- two results of an API call on interchangeable maps are interchangeable: both succeed with the
+    configuration, kind, sentinel and view flag of `m` and content-equal states, or
+    both raise the same error -/
+def UpdRel (m : MapObj) (x y : Except Err MapObj) : Prop :=
+  match x, y with
+  | .ok r₁, .ok r₂ => r₁.Same m ∧ r₂.Same m ∧ C10.Same m.c m.vc r₁.st r₂.st
+  | .error e₁, .error e₂ => e₁ = e₂
+  | _, _ => False
+
+theorem updatePix_same {W : Type} (c : Cfg) (vc : VCfg Val) (s₁ s₂ : State Val)
+    (pre : Option (Val → Val)) (f : Val → W → Val) (pv : List (Nat × W)) (na : Bool)
+    (h : C10.Same c vc s₁ s₂) (hpv : ∀ qw ∈ pv, qw.1 < c.npix) :
+    C10.Same c vc (updatePix c vc s₁ pre f pv na) (updatePix c vc s₂ pre f pv na) := by
+  unfold updatePix
+  apply C10.same_updateCore c vc s₁ s₂ _ _ na h
+  intro qw hq
+  obtain ⟨pw, hpw, he⟩ := stageList_fst_mem _ pv qw hq
+  rw [← he]
+  exact hpv pw hpw
+
+theorem pv_lt_of_pix {n : Nat} {pix : List Nat} (hp : ∀ p ∈ pix, p < n) (single : Bool) (v : Val)
+    (vals : List Val) :
+    ∀ qw ∈ (if single = true then pix.map (fun x => (x, v)) else pix.zip vals), qw.1 < n := by
+  intro qw hq
+  split at hq
+  · obtain ⟨x, hx, rfl⟩ := List.mem_map.1 hq
+    exact hp x hx
+  · exact hp _ (List.of_mem_zip (a := qw.1) (b := qw.2) hq).1
+
+theorem any_congr_mem {α : Type} {l : List α} {p q : α → Bool} (h : ∀ x ∈ l, p x = q x) :
+    l.any p = l.any q := by
+  induction l with
+  | nil => rfl
+  | cons a as ih =>
+    rw [List.any_cons, List.any_cons, h a List.mem_cons_self,
+      ih (fun x hx => h x (List.mem_cons_of_mem _ hx))]
+
+theorem UpdRel.ite2 {m : MapObj} {c : Prop} [Decidable c] {e : Err} {B B' : Except Err MapObj}
+    (h : ¬ c → UpdRel m B B') :
+    UpdRel m (if c then .error e else B) (if c then .error e else B') := by
+  by_cases hc : c
+  · rw [if_pos hc, if_pos hc]; exact rfl
+  · rw [if_neg hc, if_neg hc]; exact h hc
+
+theorem updB_same (m : MapObj) (s₂ : State Val) (x : Option Nat) (hS : C10.Same m.c m.vc m.st s₂)
+    (op : String) (pix : List Nat) (r : Option (List Val × Bool × Bool))
+    (hr : ∀ rr, r = some rr → ∀ p ∈ pix, p < m.npix) :
+    UpdRel m (updB m op pix r) (updB { m with st := s₂, cache := x } op pix r) := by
+  cases r with
+  | none => exact ⟨⟨rfl, rfl, rfl, rfl, rfl⟩, ⟨rfl, rfl, rfl, rfl, rfl⟩, hS⟩
+  | some rr =>
+    obtain ⟨vals, single, na⟩ := rr
+    have hp := hr _ rfl
+    have hhit : (pix.any fun p => ({ m with st := s₂, cache := x } : MapObj).abs p == m.sent)
+        = pix.any fun p => m.abs p == m.sent := by
+      apply any_congr_mem
+      intro p hpm
+      have : ({ m with st := s₂, cache := x } : MapObj).abs p = m.abs p :=
+        (hS.2.2.1 p (hp p hpm)).symm
+      rw [this]
+    have hst := updatePix_same m.c m.vc m.st s₂ (cellOp m op).1 (cellOp m op).2
+      (if single = true then pix.map (fun x => (x, vals.headD (.num 0 0))) else pix.zip vals) na hS
+      (pv_lt_of_pix hp single _ vals)
+    have hfit := floatCellsFit_same m.kind hst
+    have e1 : updB m op pix (some (vals, single, na)) =
+        if (m.view.isSome && pix.any fun p => m.abs p == m.sent) = true then .error .runtime
+        else if (op == "add" && !floatCellsFit m.kind (updatePix m.c m.vc m.st (cellOp m op).1
+            (cellOp m op).2 (if single = true then pix.map (fun x => (x, vals.headD (.num 0 0)))
+              else pix.zip vals) na).sp) = true then .error .inexact
+        else .ok { m with cache := none, st := (updatePix m.c m.vc m.st (cellOp m op).1
+            (cellOp m op).2 (if single = true then pix.map (fun x => (x, vals.headD (.num 0 0)))
+              else pix.zip vals) na) } := rfl
+    have e2 : updB { m with st := s₂, cache := x } op pix (some (vals, single, na)) =
+        if (m.view.isSome && pix.any fun p =>
+            ({ m with st := s₂, cache := x } : MapObj).abs p == m.sent) = true then .error .runtime
+        else if (op == "add" && !floatCellsFit m.kind (updatePix m.c m.vc s₂ (cellOp m op).1
+            (cellOp m op).2 (if single = true then pix.map (fun x => (x, vals.headD (.num 0 0)))
+              else pix.zip vals) na).sp) = true then .error .inexact
+        else .ok { m with cache := none, st := (updatePix m.c m.vc s₂ (cellOp m op).1
+            (cellOp m op).2 (if single = true then pix.map (fun x => (x, vals.headD (.num 0 0)))
+              else pix.zip vals) na) } := rfl
+    rw [e1, e2, hhit, ← hfit]
+    refine UpdRel.ite2 fun _ => UpdRel.ite2 fun _ => ?_
+    exact ⟨⟨rfl, rfl, rfl, rfl, rfl⟩, ⟨rfl, rfl, rfl, rfl, rfl⟩, hst⟩
+
+/-- **`update_values_pix` cannot tell interchangeable maps apart**: on two map objects with the
+    same configuration, kind, sentinel and view flag whose states are content-equal, every call
+    either raises the same error on both or succeeds on both with content-equal results -/
+theorem apiUpdate_same (m₁ m₂ : MapObj) (hm : m₂.Same m₁) (hS : C10.Same m₁.c m₁.vc m₁.st m₂.st)
+    (op : String) (pix : List Nat) (vals : Option (List Val)) (single : Bool)
+    (rawUnique : Option Bool) :
+    UpdRel m₁ (apiUpdate m₁ op pix vals single rawUnique) (apiUpdate m₂ op pix vals single rawUnique) := by
+  have e : m₂ = { m₁ with st := m₂.st, cache := m₂.cache } := by
+    obtain ⟨h1, h2, h3, h4, h5⟩ := hm
+    cases m₁; cases m₂
+    simp only at h1 h2 h3 h4 h5
+    subst h1 h2 h3 h4 h5
+    rfl
+  rw [e, apiUpdate_eq, apiUpdate_eq, updA_st m₁ m₂.st m₂.cache]
+  cases hA : updA m₁ op pix vals single rawUnique with
+  | error err => exact rfl
+  | ok r =>
+    exact updB_same m₁ m₂.st m₂.cache hS op pix r (fun rr hrr => updA_ok_lt (hrr ▸ hA))
+
+
+/-! ### a history of `update_values_pix` calls -/
+
+/-- one call of `update_values_pix`: operation, pixels, values (`none` = clear), scalar flag -/
+abbrev UpdCall := String × List Nat × Option (List Val) × Bool
+
+/-- run a list of calls, stopping at the first error -/
+def runUpdates (m : MapObj) (calls : List UpdCall) : Except Err MapObj :=
+  calls.foldlM (fun m c => apiUpdate m c.1 c.2.1 c.2.2.1 c.2.2.2) m
+
+theorem MapObj.Same.c_eq {m' m : MapObj} (h : m'.Same m) : m'.c = m.c := by
+  unfold MapObj.c; rw [h.1, h.2.1]
+
+theorem MapObj.Same.vc_eq {m' m : MapObj} (h : m'.Same m) : m'.vc = m.vc := by
+  unfold MapObj.vc; rw [h.2.2.1, h.2.2.2.1]
+
+theorem MapObj.Same.trans {a b c : MapObj} (h1 : a.Same b) (h2 : b.Same c) : a.Same c :=
+  ⟨h1.1.trans h2.1, h1.2.1.trans h2.2.1, h1.2.2.1.trans h2.2.2.1, h1.2.2.2.1.trans h2.2.2.2.1,
+    h1.2.2.2.2.trans h2.2.2.2.2⟩
+
+theorem MapObj.Same.symm {a b : MapObj} (h : a.Same b) : b.Same a :=
+  ⟨h.1.symm, h.2.1.symm, h.2.2.1.symm, h.2.2.2.1.symm, h.2.2.2.2.symm⟩
+
+theorem UpdRel.of_same {m m' : MapObj} (h : m'.Same m) {x y : Except Err MapObj}
+    (hr : UpdRel m' x y) : UpdRel m x y := by
+  unfold UpdRel at hr ⊢
+  cases x <;> cases y <;> simp only at hr ⊢
+  · exact hr
+  · rw [← h.c_eq, ← h.vc_eq]
+    exact ⟨hr.1.trans h, hr.2.1.trans h, hr.2.2⟩
+
+/-- **every history of updates**: interchangeable map objects stay interchangeable through any
+    list of `update_values_pix` calls, and the first error (if any) is the same on both -/
+theorem runUpdates_same (calls : List UpdCall) (m₁ m₂ : MapObj) (hm : m₂.Same m₁)
+    (hS : C10.Same m₁.c m₁.vc m₁.st m₂.st) :
+    UpdRel m₁ (runUpdates m₁ calls) (runUpdates m₂ calls) := by
+  induction calls generalizing m₁ m₂ with
+  | nil => exact ⟨MapObj.Same.rfl', hm, hS⟩
+  | cons c cs ih =>
+    unfold runUpdates
+    rw [List.foldlM_cons, List.foldlM_cons]
+    have h1 := apiUpdate_same m₁ m₂ hm hS c.1 c.2.1 c.2.2.1 c.2.2.2 none
+    cases hx : apiUpdate m₁ c.1 c.2.1 c.2.2.1 c.2.2.2 with
+    | error e₁ =>
+      cases hy : apiUpdate m₂ c.1 c.2.1 c.2.2.1 c.2.2.2 with
+      | error e₂ => rw [hx, hy] at h1; exact h1
+      | ok r₂ => rw [hx, hy] at h1; exact h1.elim
+    | ok r₁ =>
+      cases hy : apiUpdate m₂ c.1 c.2.1 c.2.2.1 c.2.2.2 with
+      | error e₂ => rw [hx, hy] at h1; exact h1.elim
+      | ok r₂ =>
+        rw [hx, hy] at h1
+        obtain ⟨s1, s2, hS'⟩ := h1
+        rw [← s1.c_eq, ← s1.vc_eq] at hS'
+        exact UpdRel.of_same s1 (ih r₁ r₂ (s2.trans s1.symm) hS')
 
 end HS
